@@ -108,6 +108,10 @@ Theorem redirect_independent_of_block sup b1 b2 st m :
   v_redirect (check_verdict sup b1 st m) = v_redirect (check_verdict sup b2 st m).
 Proof. unfold check_verdict. destruct sup; reflexivity. Qed.
 
+Theorem unsupported_request_no_redirect b st m :
+  v_redirect (check_verdict false b st m) = None /\ v_matched (check_verdict false b st m) = false.
+Proof. split; reflexivity. Qed.
+
 Theorem redirect_of_verdict b st m :
   v_redirect (check_verdict true b st m) = redirect_of st m.
 Proof. reflexivity. Qed.
@@ -312,3 +316,317 @@ Example ex_split :
   split_redirect_priority (bs "noop.js:-2147483648") = (bs "noop.js", (-2147483648)%Z) /\
   split_redirect_priority (bs "a:b:5") = (bs "a:b", 5%Z).
 Proof. vm_compute. repeat split; reflexivity. Qed.
+
+(* ================================================================ the two loops *)
+Lemma rr_eta f e o : rr_exception f = e -> rr_option f = o -> f = mk_rr e o.
+Proof. destruct f; cbn; intros -> ->; reflexivity. Qed.
+
+(* exceptions cancel by resource NAME: the priority suffix of the exception is irrelevant *)
+Theorem exception_by_name m name :
+  In name (exception_names m) <-> excepted m name.
+Proof.
+  unfold excepted. induction m as [|f r IH]; cbn [exception_names].
+  - cbn. split; [tauto|]. intros (s & [] & _).
+  - destruct (rr_exception f) eqn:E, (rr_option f) as [s0|] eqn:O.
+    + cbn [In]. rewrite IH. split.
+      * intros [H|(s & Hs & Hn)].
+        -- exists s0. split; [left; apply rr_eta; assumption|exact H].
+        -- exists s. split; [right; exact Hs|exact Hn].
+      * intros (s & [Hs|Hs] & Hn).
+        -- left. subst f. cbn in O. injection O as ->. exact Hn.
+        -- right. exists s. auto.
+    + rewrite IH. split; intros (s & Hs & Hn); exists s; (split; [|exact Hn]).
+      * right. exact Hs.
+      * destruct Hs as [Hs|Hs]; [subst f; cbn in O; discriminate|exact Hs].
+    + rewrite IH. split; intros (s & Hs & Hn); exists s; (split; [|exact Hn]).
+      * right. exact Hs.
+      * destruct Hs as [Hs|Hs]; [subst f; cbn in E; discriminate|exact Hs].
+    + rewrite IH. split; intros (s & Hs & Hn); exists s; (split; [|exact Hn]).
+      * right. exact Hs.
+      * destruct Hs as [Hs|Hs]; [subst f; cbn in E; discriminate|exact Hs].
+Qed.
+
+(* candidates of a list with respect to a fixed exception-name list *)
+Definition cand_in (E : list str) (fs : list redirect_rule) (name : str) (p : Z) : Prop :=
+  exists s, In (mk_rr false (Some s)) fs /\ split_redirect_priority s = (name, p) /\ mem_str name E = false.
+
+Lemma cand_in_cons_skip E f fs name p :
+  (rr_exception f = true \/ rr_option f = None \/
+   exists s, rr_option f = Some s /\ mem_str (fst (split_redirect_priority s)) E = true) ->
+  (cand_in E (f :: fs) name p <-> cand_in E fs name p).
+Proof.
+  intros H. split.
+  - intros (s & [Hs|Hs] & Hsp & Hm); [|exists s; auto]. subst f. cbn in H.
+    destruct H as [H|[H|(s' & H & Hm')]]; try discriminate.
+    inversion H; subst s'. rewrite Hsp in Hm'. cbn in Hm'. congruence.
+  - intros (s & Hs & Hsp & Hm). exists s. split; [right; exact Hs|auto].
+Qed.
+
+Lemma pick_loop_spec E fs : forall cur,
+  match pick_loop E fs cur with
+  | None => cur = None /\ forall name p, ~ cand_in E fs name p
+  | Some (n, p) =>
+      (cur = Some (n, p) \/ cand_in E fs n p) /\
+      (forall n' p', cand_in E fs n' p' -> (p' <= p)%Z) /\
+      (forall n0 p0, cur = Some (n0, p0) -> (p0 <= p)%Z)
+  end.
+Proof.
+  induction fs as [|f r IH]; intros cur; cbn [pick_loop].
+  - destruct cur as [[n p]|].
+    + split; [left; reflexivity|]. split.
+      * intros n' p' (s & [] & _).
+      * intros n0 p0 H. inversion H; subst. lia.
+    + split; [reflexivity|]. intros name p (s & [] & _).
+  - destruct (rr_exception f) eqn:Ex.
+    { specialize (IH cur). pose proof (cand_in_cons_skip E f r) as Sk.
+      destruct (pick_loop E r cur) as [[n p]|].
+      - destruct IH as (A & B & C). split; [|split].
+        + destruct A as [A|A]; [left; exact A|right; apply Sk; auto].
+        + intros n' p' H. apply (B n' p'). apply Sk in H; auto.
+        + exact C.
+      - destruct IH as (A & B). split; [exact A|]. intros name p H. apply (B name p). apply Sk in H; auto. }
+    destruct (rr_option f) as [s|] eqn:Op.
+    2:{ specialize (IH cur). pose proof (cand_in_cons_skip E f r) as Sk.
+      destruct (pick_loop E r cur) as [[n p]|].
+      - destruct IH as (A & B & C). split; [|split].
+        + destruct A as [A|A]; [left; exact A|right; apply Sk; auto].
+        + intros n' p' H. apply (B n' p'). apply Sk in H; auto.
+        + exact C.
+      - destruct IH as (A & B). split; [exact A|]. intros name p H. apply (B name p). apply Sk in H; auto. }
+    destruct (mem_str (fst (split_redirect_priority s)) E) eqn:Mem.
+    { specialize (IH cur). pose proof (cand_in_cons_skip E f r) as Sk.
+      assert (Hsk : rr_exception f = true \/ rr_option f = None \/
+                    exists s0, rr_option f = Some s0 /\ mem_str (fst (split_redirect_priority s0)) E = true)
+        by (right; right; exists s; auto).
+      destruct (pick_loop E r cur) as [[n p]|].
+      - destruct IH as (A & B & C). split; [|split].
+        + destruct A as [A|A]; [left; exact A|right; apply Sk; auto].
+        + intros n' p' H. apply (B n' p'). apply Sk in H; auto.
+        + exact C.
+      - destruct IH as (A & B). split; [exact A|]. intros name p H. apply (B name p). apply Sk in H; auto. }
+    (* f is a candidate *)
+    pose proof (rr_eta f false (Some s) Ex Op) as Hf.
+    destruct (split_redirect_priority s) as [fn fp] eqn:Sp. cbn [fst snd] in *.
+    assert (Hcand : cand_in E (f :: r) fn fp).
+    { exists s. split; [left; exact Hf|]. split; [exact Sp|exact Mem]. }
+    assert (Hsplit : forall n' p', cand_in E (f :: r) n' p' -> (n' = fn /\ p' = fp) \/ cand_in E r n' p').
+    { intros n' p' (s' & [Hs|Hs] & Hsp & Hm).
+      - left. rewrite Hf in Hs. inversion Hs; subst s'. rewrite Sp in Hsp. inversion Hsp; auto.
+      - right. exists s'. auto. }
+    assert (Hweak : forall n' p', cand_in E r n' p' -> cand_in E (f :: r) n' p').
+    { intros n' p' (s' & Hs & Hsp & Hm). exists s'. split; [right; exact Hs|auto]. }
+    destruct cur as [[cn cp]|].
+    + destruct (fp >? cp)%Z eqn:Gt.
+      * specialize (IH (Some (fn, fp))). destruct (pick_loop E r (Some (fn, fp))) as [[n p]|].
+        -- destruct IH as (A & B & C). split; [|split].
+           ++ right. destruct A as [A|A]; [inversion A; subst; exact Hcand|apply Hweak; exact A].
+           ++ intros n' p' H. destruct (Hsplit _ _ H) as [[-> ->]|H']; [apply (C fn fp); reflexivity|apply (B n' p'); exact H'].
+           ++ intros n0 p0 H. inversion H; subst. specialize (C fn fp eq_refl). lia.
+        -- destruct IH as (A & _). discriminate.
+      * specialize (IH (Some (cn, cp))). destruct (pick_loop E r (Some (cn, cp))) as [[n p]|].
+        -- destruct IH as (A & B & C). split; [|split].
+           ++ destruct A as [A|A]; [left; exact A|right; apply Hweak; exact A].
+           ++ intros n' p' H. destruct (Hsplit _ _ H) as [[-> ->]|H']; [specialize (C cn cp eq_refl); lia|apply (B n' p'); exact H'].
+           ++ exact C.
+        -- destruct IH as (A & _). discriminate.
+    + specialize (IH (Some (fn, fp))). destruct (pick_loop E r (Some (fn, fp))) as [[n p]|].
+      * destruct IH as (A & B & C). split; [|split].
+        -- right. destruct A as [A|A]; [inversion A; subst; exact Hcand|apply Hweak; exact A].
+        -- intros n' p' H. destruct (Hsplit _ _ H) as [[-> ->]|H']; [apply (C fn fp); reflexivity|apply (B n' p'); exact H'].
+        -- intros n0 p0 H. discriminate.
+      * destruct IH as (A & _). discriminate.
+Qed.
+
+Lemma cand_in_candidate m name p : cand_in (exception_names m) m name p <-> candidate m name p.
+Proof.
+  unfold cand_in, candidate, offered. split.
+  - intros (s & Hs & Hsp & Hm). split; [exists s; auto|]. intros H. apply exception_by_name in H.
+    apply mem_str_In in H. congruence.
+  - intros [(s & Hs & Hsp) Hn]. exists s. split; [exact Hs|]. split; [exact Hsp|].
+    destruct (mem_str name (exception_names m)) eqn:M; [|reflexivity].
+    apply mem_str_In in M. apply exception_by_name in M. contradiction.
+Qed.
+
+(* the chosen resource is a non-excepted candidate of maximal priority (a member of the arg-max
+   set: which one, among equal priorities, depends on the delivery order of check_all) *)
+Theorem pick_redirect_some m name :
+  pick_redirect m = Some name ->
+  exists p, candidate m name p /\ forall n' p', candidate m n' p' -> (p' <= p)%Z.
+Proof.
+  unfold pick_redirect. pose proof (pick_loop_spec (exception_names m) m None) as H.
+  destruct (pick_loop (exception_names m) m None) as [[n p]|]; [|discriminate].
+  intros E. inversion E; subst n. destruct H as (A & B & _). exists p. split.
+  - destruct A as [A|A]; [discriminate|]. apply cand_in_candidate. exact A.
+  - intros n' p' H. apply (B n' p'). apply cand_in_candidate. exact H.
+Qed.
+
+(* no redirect name iff every offered resource is excepted (or nothing is offered) *)
+Theorem pick_redirect_none m :
+  pick_redirect m = None <-> forall name p, ~ candidate m name p.
+Proof.
+  unfold pick_redirect. pose proof (pick_loop_spec (exception_names m) m None) as H.
+  destruct (pick_loop (exception_names m) m None) as [[n p]|].
+  - split; [discriminate|]. intros G. exfalso. destruct H as (A & _).
+    destruct A as [A|A]; [discriminate|]. apply (G n p). apply cand_in_candidate. exact A.
+  - destruct H as (_ & B). split; [|reflexivity]. intros _ name p G. apply (B name p).
+    apply cand_in_candidate. exact G.
+Qed.
+
+(* when the arg-max set names a single resource the answer is determined *)
+Theorem pick_redirect_unique m name p :
+  candidate m name p ->
+  (forall n' p', candidate m n' p' -> n' = name \/ (p' < p)%Z) ->
+  pick_redirect m = Some name.
+Proof.
+  intros Hc Hu. destruct (pick_redirect m) as [n|] eqn:E.
+  - destruct (pick_redirect_some _ _ E) as (q & Hq & Hmax).
+    destruct (Hu _ _ Hq) as [->|Hlt]; [reflexivity|]. specialize (Hmax _ _ Hc). lia.
+  - exfalso. apply (proj1 (pick_redirect_none m) E name p). exact Hc.
+Qed.
+
+Example ex_pick :
+  pick_redirect [ mk_rr false (Some (bs "a.js:5")); mk_rr false (Some (bs "noop.js:10"));
+                  mk_rr true (Some (bs "noop.js")); mk_rr false (Some (bs "b.js:-1")) ] = Some (bs "a.js")
+  /\ candidate [ mk_rr false (Some (bs "a.js:5")); mk_rr true (Some (bs "noop.js")) ] (bs "a.js") 5%Z.
+Proof.
+  split; [vm_compute; reflexivity|]. apply cand_in_candidate. exists (bs "a.js:5").
+  split; [left; reflexivity|]. vm_compute. split; reflexivity.
+Qed.
+
+(* ================================================================ resource gate *)
+Theorem resource_gate st ident url :
+  get_redirect_resource st ident = Some url <->
+  exists r m, loaded st ident r /\ r_permission r = 0%N /\ r_kind r = Kind_Mime m /\
+              l0_redirectable (r_kind r) = true /\ url = data_url m (r_content r).
+Proof.
+  unfold get_redirect_resource, loaded.
+  destruct (get_internal_resource st ident) as [r|].
+  - destruct (N.eqb (r_permission r) 0) eqn:P; cbn [negb].
+    + apply N.eqb_eq in P. destruct (supports_redirect (r_kind r)) eqn:S; cbn [negb].
+      * destruct (r_kind r) as [m|] eqn:K.
+        -- split.
+           ++ intros H. inversion H; subst. exists r, m. rewrite K, <- supports_redirect_table. auto.
+           ++ intros (r' & m' & H & _ & Hk & _ & ->). inversion H; subst r'. rewrite K in Hk.
+              inversion Hk; subst. reflexivity.
+        -- cbn in S. discriminate.
+      * split; [discriminate|]. intros (r' & m' & H & _ & _ & Hs & _). inversion H; subst r'.
+        rewrite <- supports_redirect_table in Hs. congruence.
+    + apply N.eqb_neq in P. split; [discriminate|]. intros (r' & m' & H & Hp & _). inversion H; subst r'. contradiction.
+  - split; [discriminate|]. intros (r' & m' & H & _). discriminate.
+Qed.
+
+Theorem resource_gate_none st ident :
+  get_redirect_resource st ident = None <->
+  forall r, loaded st ident r -> r_permission r <> 0%N \/ l0_redirectable (r_kind r) = false.
+Proof.
+  split.
+  - intros H r L. destruct (N.eq_dec (r_permission r) 0) as [P|P]; [|left; exact P]. right.
+    destruct (l0_redirectable (r_kind r)) eqn:S; [|reflexivity]. exfalso.
+    destruct (r_kind r) as [m|] eqn:K; [|cbn in S; discriminate].
+    assert (G : get_redirect_resource st ident = Some (data_url m (r_content r))).
+    { apply resource_gate. exists r, m. rewrite K. auto. }
+    congruence.
+  - intros H. destruct (get_redirect_resource st ident) as [url|] eqn:E; [|reflexivity]. exfalso.
+    apply resource_gate in E as (r & m & L & P & K & S & _). destruct (H r L) as [G|G]; congruence.
+Qed.
+
+(* the redirect of the verdict, end to end *)
+Theorem redirect_spec st m url :
+  redirect_of st m = Some url <->
+  exists name r mime,
+    pick_redirect m = Some name /\ loaded st name r /\ r_permission r = 0%N /\
+    r_kind r = Kind_Mime mime /\ l0_redirectable (r_kind r) = true /\
+    url = data_url mime (r_content r).
+Proof.
+  unfold redirect_of. destruct (pick_redirect m) as [name|].
+  - rewrite resource_gate. split.
+    + intros (r & mi & H). exists name, r, mi. auto.
+    + intros (n & r & mi & E & H). inversion E; subst n. exists r, mi. exact H.
+  - split; [discriminate|]. intros (n & r & mi & E & _). discriminate.
+Qed.
+
+Theorem redirect_none st m :
+  redirect_of st m = None <->
+  pick_redirect m = None \/
+  exists name, pick_redirect m = Some name /\
+    forall r, loaded st name r -> r_permission r <> 0%N \/ l0_redirectable (r_kind r) = false.
+Proof.
+  unfold redirect_of. destruct (pick_redirect m) as [name|].
+  - rewrite resource_gate_none. split.
+    + intros H. right. exists name. auto.
+    + intros [H|(n & E & H)]; [discriminate|]. inversion E; subst n. exact H.
+  - split; [auto|reflexivity].
+Qed.
+
+(* ================================================================ the store built by use_resources *)
+Lemma assoc_map_const (a : str) (v : str) (l : list str) :
+  assoc a (map (fun x => (x, v)) l) = if mem_str a l then Some v else None.
+Proof.
+  induction l as [|x l IH]; cbn; [reflexivity|]. destruct (str_eqb a x); cbn; [reflexivity|exact IH].
+Qed.
+
+Lemma assoc_app {A} (k : str) (l1 l2 : list (str * A)) :
+  assoc k (l1 ++ l2) = match assoc k l1 with Some v => Some v | None => assoc k l2 end.
+Proof.
+  induction l1 as [|[k' v] l1 IH]; cbn; [reflexivity|]. destruct (str_eqb k k'); [reflexivity|exact IH].
+Qed.
+
+Definition store_inv (P : resource -> Prop) (st : storage) : Prop :=
+  (forall k r, assoc k (st_resources st) = Some r -> P r /\ r_name r = k) /\
+  (forall a c, assoc a (st_aliases st) = Some c ->
+     exists r, assoc c (st_resources st) = Some r /\ In a (r_aliases r)).
+
+Lemma add_resource_inv (P : resource -> Prop) st rn : P rn -> store_inv P st -> store_inv P (add_resource st rn).
+Proof.
+  intros Hp [I1 I2]. unfold add_resource.
+  destruct (negb _); [split; assumption|].
+  destruct (existsb _ (r_name rn :: r_aliases rn)) eqn:Ex; [split; assumption|].
+  cbn [existsb] in Ex. apply orb_false_iff in Ex as [Ex _]. apply orb_false_iff in Ex as [Ex _].
+  unfold has_key in Ex.
+  split; cbn [st_resources st_aliases].
+  - intros k r H. cbn [assoc] in H. destruct (str_eqb k (r_name rn)) eqn:E.
+    + apply str_eqb_eq in E. inversion H; subst. auto.
+    + apply I1. exact H.
+  - intros a c H. rewrite assoc_app, assoc_map_const in H.
+    destruct (mem_str a (r_aliases rn)) eqn:M.
+    + inversion H; subst c. exists rn. cbn [assoc]. rewrite str_eqb_refl. split; [reflexivity|].
+      apply mem_str_In. exact M.
+    + destruct (I2 a c H) as (r & Hr & Ha). exists r. split; [|exact Ha]. cbn [assoc].
+      destruct (str_eqb c (r_name rn)) eqn:E; [|exact Hr].
+      apply str_eqb_eq in E. subst c. rewrite Hr in Ex. discriminate.
+Qed.
+
+Lemma fold_add_inv (P : resource -> Prop) l : forall st,
+  (forall r, In r l -> P r) -> store_inv P st -> store_inv P (fold_left add_resource l st).
+Proof.
+  induction l as [|r l IH]; intros st Hl Hi; cbn [fold_left]; [exact Hi|].
+  apply IH.
+  - intros r' H. apply Hl. right. exact H.
+  - apply add_resource_inv; [apply Hl; left; reflexivity|exact Hi].
+Qed.
+
+(* whatever the store answers for an identifier is one of the resources handed to use_resources,
+   and that resource carries the identifier as its name or as one of its aliases *)
+Theorem loaded_from_resources rs ident r :
+  loaded (from_resources rs) ident r ->
+  In r rs /\ (r_name r = ident \/ In ident (r_aliases r)).
+Proof.
+  unfold loaded, from_resources, get_internal_resource.
+  assert (Hi : store_inv (fun x => In x rs) (fold_left add_resource rs empty_store)).
+  { apply fold_add_inv; [auto|]. split; cbn; intros; discriminate. }
+  destruct Hi as [I1 I2]. set (st := fold_left add_resource rs empty_store) in *.
+  destruct (assoc ident (st_resources st)) as [r0|] eqn:A.
+  - intros H. inversion H; subst r0. destruct (I1 _ _ A) as [Hin Hn]. auto.
+  - destruct (assoc ident (st_aliases st)) as [c|] eqn:B; [|discriminate].
+    intros H. destruct (I2 _ _ B) as (r' & Hr' & Ha). rewrite Hr' in H. inversion H; subst r'.
+    destruct (I1 _ _ Hr') as [Hin _]. auto.
+Qed.
+
+Example ex_store :
+  let rs := [ mk_res (bs "noop.js") [bs "noopjs"] (Kind_Mime Mime_ApplicationJavascript) (bs "KGZ1bmM=") false true 0;
+              mk_res (bs "noopjs") [] (Kind_Mime Mime_TextPlain) (bs "eA==") false true 0;
+              mk_res (bs "perm.js") [] (Kind_Mime Mime_ApplicationJavascript) (bs "cA==") false true 1 ] in
+  redirect_of (from_resources rs) [mk_rr false (Some (bs "noopjs:3")); mk_rr false (Some (bs "perm.js"))]
+    = Some (bs "data:application/javascript;base64,KGZ1bmM=")
+  /\ redirect_of (from_resources rs) [mk_rr false (Some (bs "perm.js"))] = None.
+Proof. vm_compute. split; reflexivity. Qed.
